@@ -793,6 +793,7 @@ def run(scn, rng=None):
             # early stop: nothing left to do
             if replay is False and t > 5 and not any(p.active or p.suspending for p in mex.pools) \
                     and all(m.state in (M.C,) or (m.state == M.FL and not chaos.k["retry"]) for b in built for m in b.mops):
+                cfg["ticks"] = t + 1      # recorded, so that a replay covers exactly the same ticks
                 break
         pr = mex.probes()
         for k_, v in log.counts.items():
